@@ -43,6 +43,8 @@ class Image:
         self.wb = [cdiv(W * h, hmax * 8) for h, v in samp]
         self.hb = [cdiv(H * v, vmax * 8) for h, v in samp]
         self.entries = []          # textual directives, later ones override earlier ones
+        self.model_variants = None  # None: every variant goes through the model; else a set of variant indices
+        self.al0 = 1
         self.kind = "?"
 
     def nblocks(self, c):
@@ -139,6 +141,41 @@ def gen_image(rng, kind, P):
             n = im.nblocks(0)
             for b in set([rng.choice([32765, 32766, 32767, 32768]), n - 1 if rng.chance(1, 2) else rng.below(n)]):
                 im.set(rng.below(im.NC), b, ZZ[rng.range(1, 63)], rng.choice([1, -1, 2, -3, acmax, -acmax]))
+        return im
+    if kind == "bigmcu":
+        # more than 65535 MCUs in one scan (gray, almost empty): restart intervals around / above the 16-bit DRI field
+        wbk = rng.choice([512, 512, 400, 331, 257])
+        hbk = cdiv(rng.range(65537, 66600), wbk)
+        im = Image(P, wbk * 8 - rng.below(8), hbk * 8 - rng.below(8), [(1, 1)])
+        im.kind = kind
+        im.model_variants = {0}
+        im.set_all_dc(0, rng.choice([-300, 77, 500, -1]))
+        n = im.nblocks(0)
+        for b in sorted(set([65534, 65535, 65536, n - 1] + [rng.below(n) for _ in range(20)])):
+            im.set(0, b, 0, rng.range(-200, 200))
+            if rng.chance(1, 2):
+                im.set(0, b, ZZ[rng.range(1, 63)], rng.choice([1, -1, 2, -7, acmax]))
+        return im
+    if kind in ("denseref", "denseref-new", "denseref-part"):
+        # long runs of blocks whose band is (almost) completely already-nonzero in an AC refinement scan:
+        # every block adds up to 63 correction bits to the BE buffer (MAX_CORR_BITS = 1000)
+        nc = rng.choice([1, 1, 3])
+        nb = rng.range(18, 70)
+        wbk = rng.choice([nb, cdiv(nb, 2), cdiv(nb, 3)])
+        im = Image(P, wbk * 8, cdiv(nb, wbk) * 8, [(1, 1)] * nc)
+        im.kind = kind
+        al0 = rng.choice([1, 1, 2, 3])
+        im.al0 = al0
+        lo, hi = 1 << al0, min(acmax, (1 << al0) * rng.choice([2, 8, 64]))
+        kset = list(range(1, 64)) if kind != "denseref-part" else sorted(rng.shuffle(range(1, 64))[:rng.range(20, 55)])
+        for c in range(nc):
+            for b in range(im.nblocks(c)):
+                im.set(c, b, 0, rng.range(-100, 100))
+                for k in kset:
+                    v = rng.range(lo, hi)
+                    if kind == "denseref-new" and rng.chance(1, 200):
+                        v = rng.range(1, lo - 1) if lo > 1 else 0      # becomes nonzero only in a refinement scan
+                    im.set(c, b, ZZ[k], v if rng.chance(1, 2) else -v)
         return im
     W, H, samp = rand_geometry(rng)
     im = Image(P, W, H, samp)
@@ -252,6 +289,40 @@ def random_complete_script(rng, im, max_al=None):
     return scans
 
 
+def refinement_script(rng, im):
+    """DC, AC first at Al = al0 over 1..63 (possibly in bands), then AC refinement down to 0"""
+    al0 = im.al0
+    scans = [(list(range(im.NC))[:4], 0, 0, 0, 0)]
+    if im.NC > 4:
+        scans.append((list(range(4, im.NC)), 0, 0, 0, 0))
+    for c in range(im.NC):
+        cuts = sorted(set([1, 64] + ([rng.range(2, 63)] if rng.chance(1, 3) else [])))
+        for a, b in zip(cuts, cuts[1:]):
+            scans.append(([c], a, b - 1, 0, al0))
+    for al in range(al0 - 1, -1, -1):
+        for c in rng.shuffle(range(im.NC)):
+            cuts = sorted(set([1, 64] + ([rng.range(2, 63)] if rng.chance(1, 3) else [])))
+            for a, b in zip(cuts, cuts[1:]):
+                scans.append(([c], a, b - 1, al + 1, al))
+    return scans
+
+
+def special_configs(rng, im):
+    if im.kind == "bigmcu":
+        mpr = im.mcus_per_row()
+        m = im.mcus_interleaved()
+        rows_over = cdiv(65536, mpr)
+        pick = lambda: rng.choice(["ri=65535", "ri=65536", "ri=%d" % rng.range(65537, m + 5), "ri=100000", "ri=%d" % (m - 1),
+                                   "rows=%d" % rows_over, "rows=%d" % (rows_over + rng.range(1, 5)), "rows=%d" % max(1, rows_over - 1)])
+        over = lambda: rng.choice(["ri=65536", "ri=%d" % rng.range(65537, m - 1), "rows=%d" % rows_over, "rows=%d" % (rows_over + 1)])
+        return [("opt", "src=a opt=1 " + over()), ("def", "src=a opt=0 " + pick()), ("prog", "src=a prog=1 " + pick()),
+                ("arith", "src=a arith=1 " + over()), ("trans", "src=p opt=1 " + pick())]
+    sc = "scans=" + script_str(refinement_script(rng, im))
+    return [("script", "src=a " + sc), ("script", "src=a %s ri=%d" % (sc, rng.choice([1, 2, 7, 16, 17, 40]))),
+            ("opt", "src=a opt=1"), ("trans", "src=p scans=" + script_str(refinement_script(rng, im))),
+            ("arithprog", "src=a arith=1 " + sc)]
+
+
 def script_str(scans):
     return "/".join("%s:%d:%d:%d:%d" % (",".join(map(str, cs)), ss, se, ah, al) for cs, ss, se, ah, al in scans)
 
@@ -361,6 +432,27 @@ def parse_jpeg(b):
         else:
             i += 2 + L
     return frame, scans
+
+
+def restart_markers_consistent(im, jpg):
+    """model-free: in every scan the number of RSTn markers is ceil(MCUs / DRI) - 1 (0 without DRI) and
+    they are numbered 0,1,..,7,0,..  -- i.e. the encoder restarted at the interval the file announces"""
+    pj = parse_jpeg(jpg)
+    if not pj or not pj[0]:
+        return "unparsable"
+    frame, scans = pj
+    ids = [c[0] for c in frame["comps"]]
+    for sidx, s in enumerate(scans):
+        comps = [ids.index(c[0]) for c in s["comps"]]
+        n = scan_mcus(im, comps)
+        d = s["data"]
+        nums = [d[k + 1] - 0xD0 for k in range(len(d) - 1) if d[k] == 0xFF and 0xD0 <= d[k + 1] <= 0xD7]
+        exp = (cdiv(n, s["ri"]) - 1) if s["ri"] else 0
+        if len(nums) != exp:
+            return "scan %d: DRI=%d, %d MCUs => %d RSTn expected, %d found" % (sidx, s["ri"], n, exp, len(nums))
+        if nums != [k % 8 for k in range(len(nums))]:
+            return "scan %d: RSTn numbering %s.." % (sidx, nums[:10])
+    return None
 
 
 def tbl_str(t):
@@ -489,7 +581,7 @@ def gen_script_cases(rng, n):
 # ----------------------------------------------------------------------------- run
 def run(ctx):
     rng = ctx.rng
-    ctx.regen(["NatOrder"])
+    ctx.regen(["NatOrder", "RestartClamp"])
     ctx.prove()
     drv = ctx.model_driver()
     flavours = ["simd", "plain"] if not ctx.thorough() else ["simd", "plain", "asan"]
@@ -514,7 +606,7 @@ def run(ctx):
                 elif l.startswith("img "):
                     cases.append(rebuild_case(l))
     kinds = ["dense", "sparse", "extreme", "runs", "planes", "zero"]
-    nimg = ctx.n(110, 2500)
+    nimg = ctx.n(72, 2500)
     for i in range(nimg):
         kind = kinds[i % len(kinds)] if i < 3 * len(kinds) else rng.choice(kinds)
         P = 12 if ((i // len(kinds)) + i) % 3 == 2 else 8
@@ -525,6 +617,7 @@ def run(ctx):
     for j, kind in enumerate(["flat1", "flat", "flatchroma"][:ctx.n(2, 3)] * ctx.n(1, 4)):
         P = 12 if rng.chance(1, 4) else 8
         im = gen_image(rng, kind, P)
+        im.model_variants = {1, 2} if not ctx.thorough() else None
         m = im.mcus_interleaved()
         cfgs = [("prog", "src=a prog=1"),
                 ("script", "src=a scans=" + script_str(random_complete_script(rng, im, max_al=rng.choice([0, 1, 2])))),
@@ -532,7 +625,18 @@ def run(ctx):
                 ("prog", "src=a prog=1 ri=%d" % rng.choice([32767, 32768, 32769, 33000, 65535])),
                 ("trans", "src=p arith=1")]
         cases.append((case_line(im, cfgs), "img-%s-%d" % (kind, P), im, cfgs))
-    for l, kind in gen_script_cases(rng, ctx.n(1500, 40000)):
+    # AC refinement scans that overflow the correction-bit buffer; scans with more than 65535 MCUs
+    for j in range(ctx.n(8, 120)):
+        kind = ["denseref", "denseref-new", "denseref-part", "denseref"][j % 4]
+        P = 12 if j % 3 == 2 else 8
+        im = gen_image(rng, kind, P)
+        cfgs = special_configs(rng, im)
+        cases.append((case_line(im, cfgs), "img-%s-%d" % (kind, P), im, cfgs))
+    for j in range(ctx.n(1, 6)):
+        im = gen_image(rng, "bigmcu", 8)
+        cfgs = special_configs(rng, im)
+        cases.append((case_line(im, cfgs), "img-bigmcu-8", im, cfgs))
+    for l, kind in gen_script_cases(rng, ctx.n(1000, 40000)):
         cases.append((l, "script-" + kind, None, None))
     return run_cases(ctx, cases, exes, drv, flavours)
 
@@ -592,7 +696,7 @@ def run_cases(ctx, cases, exes, drv, flavours):
             if outs[fl][i] == "<crash>":
                 continue
             for j, p in enumerate(outs[fl][i].split(" | ")):
-                if p.startswith("ok "):
+                if p.startswith("ok ") and (im.model_variants is None or j in im.model_variants):
                     hx = p.split()[1]
                     key = (i, j, hx)
                     if key in seen:
@@ -669,6 +773,10 @@ def run_cases(ctx, cases, exes, drv, flavours):
 
                     ctx.violation("pixel decoding of the library's own output fails under '%s' (%s build): %s" % (cfg[:160], fl, px), rep,
                                   signature="pixel-error:%s" % fam)
+                bad_rst = restart_markers_consistent(im, bytes.fromhex(f[1]))
+                if bad_rst:
+                    ctx.violation("restart markers in the stream do not match the announced DRI under '%s' (%s build): %s" % (cfg[:160], fl, bad_rst),
+                                  rep, signature="dri-mismatch:%s" % fam)
                 if fl == flavours[0]:
                     ctx.count("variant-" + fam, 1, (kind, f[1][-64:]))
                 # ---- model correspondence (once per distinct JPEG)
